@@ -266,3 +266,81 @@ Proof.
     try (apply Nat.leb_gt in H; lia); try (apply Nat.ltb_ge in H; lia);
     try (apply Nat.leb_gt; lia); try (apply Nat.ltb_ge; lia).
 Qed.
+
+(* ---- UncertainName::from_octets *)
+Lemma unc_loop_true f len : forall b, unc_loop f len b = Ok true <-> abs_loop f b = Ok tt.
+Proof.
+  induction f as [|f IH]; intros b; cbn [unc_loop abs_loop]; [split; discriminate|].
+  destruct (split_from b) as [[l tail]|e|p|]; try (split; discriminate).
+  destruct (is_root l).
+  - destruct (is_empty tail); split; intros; try discriminate; reflexivity.
+  - destruct (is_empty tail); [|apply IH].
+    destruct (uncertain_rel_checked && _); split; discriminate.
+Qed.
+
+Lemma unc_loop_false f len : forall b, wf_bytes b -> unc_loop f len b = Ok false ->
+  (exists n, Forall valid_label n /\ n <> [] /\ b = wire_rel n) /\
+  (uncertain_rel_checked = true -> exceeds uncertain_rel_ge len uncertain_rel_lim = false).
+Proof.
+  induction f as [|f IH]; intros b Hw H; [discriminate|]. cbn [unc_loop] in H.
+  destruct (split_from b) as [[l tail]|e|p|] eqn:E; try discriminate.
+  destruct (split_from_ok b l tail Hw E) as (-> & Hl & Hwl & Hwt).
+  destruct (is_root l) eqn:R; [destruct (is_empty tail); discriminate|]. apply is_root_false in R.
+  assert (Vl : valid_label l) by (split; [lia|exact Hwl]).
+  destruct (is_empty tail) eqn:Et.
+  - destruct tail; [|discriminate]. split.
+    + exists [l]. split; [constructor; [exact Vl|constructor]|]. split; [discriminate|].
+      unfold wire_rel. cbn [map concat]. reflexivity.
+    + intros Hc. rewrite Hc in H. cbn [andb] in H. destruct (exceeds _ _ _); [discriminate|reflexivity].
+  - destruct (IH tail Hwt H) as [(n & Hn & _ & ->) Hc]. split; [|exact Hc].
+    exists (l :: n). split; [constructor; assumption|]. split; [discriminate|reflexivity].
+Qed.
+
+Theorem uncertain_absolute_iff b : wf_bytes b ->
+  (uncertain_check b = Ok true <-> exists n, valid_abs n /\ b = wire_abs n).
+Proof.
+  intros Hw. rewrite <- (check_abs_iff b Hw). unfold uncertain_check, check_abs.
+  unfold uncertain_ge, uncertain_lim, check_abs_ge, check_abs_lim, name_max.
+  destruct (exceeds false (length b) 255); [split; discriminate|]. apply unc_loop_true.
+Qed.
+
+(* a relative result is a valid, non-empty relative name -- unless it is the
+   class uncertain_relative_255 and the source does not test the relative length *)
+Theorem uncertain_relative_valid b : wf_bytes b -> uncertain_check b = Ok false ->
+  uncertain_rel_checked = true \/ uncertain_relative_255 b = false ->
+  exists n, valid_rel n /\ n <> [] /\ b = wire_rel n.
+Proof.
+  intros Hw H Hk. unfold uncertain_check, uncertain_ge, uncertain_lim, name_max in H. rewrite exceeds_gt in H.
+  destruct (Nat.ltb_spec 255 (length b)) as [Hgt|Hle]; [discriminate|].
+  destruct (unc_loop_false _ _ b Hw H) as [(n & Hn & Hne & ->) Hc].
+  exists n. split; [|auto]. split; [exact Hn|]. rewrite wire_rel_length in *.
+  destruct Hk as [Hk|Hk].
+  - specialize (Hc Hk). revert Hc. unfold uncertain_rel_ge, uncertain_rel_lim. rewrite ?exceeds_gt, ?exceeds_ge.
+    intros Hc. first [apply Nat.ltb_ge in Hc | apply Nat.leb_gt in Hc]; lia.
+  - unfold uncertain_relative_255 in Hk. rewrite wire_rel_length in Hk. apply Nat.eqb_neq in Hk. lia.
+Qed.
+
+Definition lab63 (c : N) : bytes := repeat c 63.
+Definition unc_witness : name := [lab63 97; lab63 97; lab63 97; repeat 98%N 62].
+
+(* while the relative length is not tested, 63a.63a.63a.62b (255 octets, no root)
+   is returned as a relative name *)
+Theorem uncertain_limit_refuted : uncertain_rel_checked = false ->
+  wf_bytes (wire_rel unc_witness) /\ uncertain_check (wire_rel unc_witness) = Ok false /\
+  length (wire_rel unc_witness) = 255%nat /\ forall n, valid_rel n -> wire_rel unc_witness <> wire_rel n.
+Proof.
+  intros H. split; [apply bytesb_spec; vm_compute; reflexivity|]. split; [|split].
+  - unfold uncertain_check. revert H. unfold uncertain_rel_checked. intros H.
+    first [discriminate H | vm_compute; reflexivity].
+  - vm_compute. reflexivity.
+  - intros n [_ Hl] E. apply (f_equal (@length N)) in E. rewrite (wire_rel_length n) in E.
+    assert (L : length (wire_rel unc_witness) = 255%nat) by (vm_compute; reflexivity). lia.
+Qed.
+
+Theorem chain_uncertain_valid l r : valid_rel l -> valid_abs r ->
+  chain_new_uncertain true (wire_len l) (wire_len r + 1) = Ok tt -> valid_abs (l ++ r).
+Proof.
+  unfold chain_new_uncertain, chain_unc_ge, chain_unc_lim, name_max. rewrite exceeds_gt.
+  intros [Hl _] [Hr _]. destruct (Nat.ltb_spec 255 (wire_len l + (wire_len r + 1))); [discriminate|].
+  intros _. split; [apply Forall_app; split; assumption|]. rewrite wire_len_app. lia.
+Qed.
